@@ -774,6 +774,7 @@ func runC11(e *env) {
 	}
 	e.res.Note("go side: %d bundles in %.1fs", len(bundles), time.Since(t0).Seconds())
 	c11PartsCorrespondence(e, partStrings)
+	c11PoCorrespondence(e)
 
 	// ---- node: every unit in its own context, one process per chunk ----
 	t1 := time.Now()
